@@ -429,7 +429,11 @@ func c13Explore(t *testing.T, c *ev.Collector, k c13Case) {
 		Bound: k.Bound,
 		Shard: k.Sub, Shards: k.Subs,
 		Run: func(prefix []int, expect []bsched.Point) *bsched.Exec {
-			return runSched(t, prefix, expect, 20000, func(s *bsched.Sched) any { return c13Body(k, s) })
+			return runSched(t, prefix, expect, 20000, func(s *bsched.Sched) any { return c13Body(k, s) }, func(x *bsched.Exec) {
+				c13Judge(c, k, x, solo)
+				c.NotExhaustive("a deadlocked call could not be torn down; the worker stopped after recording it")
+				_ = c.Finish()
+			})
 		},
 		Stop: c.Expired,
 	}
